@@ -37,8 +37,9 @@ pub trait P11 {
 
 #[derive(Debug, Clone)]
 struct Case {
-    /// (is_error, text length, continues) per reply
-    replies: Vec<(bool, usize, bool)>,
+    /// (kind: 0 success, 1 method error, 2 org.varlink.service error, 3 wrong shape; text length;
+    /// continues) per reply
+    replies: Vec<(u8, usize, bool)>,
     /// chunk index each reply is delivered in (non-decreasing); all 0 = same read
     chunk_of: Vec<usize>,
     pendings: usize,
@@ -70,10 +71,14 @@ fn text_for(seed: u64, k: usize, len: usize) -> String {
 }
 
 fn reply_bytes(case: &Case, k: usize) -> Vec<u8> {
-    let (is_err, len, cont) = case.replies[k];
+    let (kind, len, cont) = case.replies[k];
     let text = text_for(case.seed, k, len);
-    let mut v = if is_err {
+    let mut v = if kind == 1 {
         format!("{{\"error\":\"c.Fail\",\"parameters\":{{\"tag\":{k},\"why\":\"{text}\"}}}}")
+    } else if kind == 2 {
+        format!("{{\"error\":\"org.varlink.service.InvalidParameter\",\"parameters\":{{\"parameter\":\"{text}\"}}}}")
+    } else if kind == 3 {
+        format!("{{\"parameters\":{{\"tag\":\"{text}\"}}}}")
     } else if cont {
         format!("{{\"parameters\":{{\"tag\":{k},\"text\":\"{text}\"}},\"continues\":true}}")
     } else {
@@ -163,10 +168,16 @@ fn execute(case: &Case) -> Result<(usize, bool), Damage> {
                 if !held.is_empty() && wire.borrow().bytes_delivered != delivered_before {
                     read_while_holding = true;
                 }
-                let Some(item) = item else { break };
-                let Ok(item) = item else { break };
-                let text = get(&item).to_string();
-                held.push((item, text));
+                // a connection-level failure or the end of the stream is "obtaining a further reply" too:
+                // the items held so far must still be intact afterwards
+                let mut stop = false;
+                match item {
+                    Some(Ok(item)) => {
+                        let text = get(&item).to_string();
+                        held.push((item, text));
+                    }
+                    _ => stop = true,
+                }
                 // re-read everything held so far
                 for (i, (it, copy)) in held.iter().enumerate() {
                     let now: &str = get(it);
@@ -180,7 +191,7 @@ fn execute(case: &Case) -> Result<(usize, bool), Damage> {
                         return Err(Damage { read_while_holding, item: i, after_obtaining: held.len() - 1, expected: copy.clone(), got: vnet::json::show(&tmp[..k]) });
                     }
                 }
-                if held.len() > n + 2 {
+                if stop || held.len() > n + 2 {
                     break;
                 }
             }
@@ -196,9 +207,9 @@ fn execute(case: &Case) -> Result<(usize, bool), Damage> {
         let mut kinds = Vec::new();
         let mut k = 0;
         while k < n {
-            if case.replies[k].2 && !case.replies[k].0 {
+            if case.replies[k].2 && case.replies[k].0 == 0 {
                 // a run of continuing replies ends with the first non-continuing one
-                while k < n && case.replies[k].2 && !case.replies[k].0 {
+                while k < n && case.replies[k].2 && case.replies[k].0 == 0 {
                     k += 1;
                 }
                 kinds.push(Kind::More);
@@ -243,7 +254,7 @@ pub fn run(cfg: &Cfg) -> Report {
     let mut rep = Report::new("C11", &format!("c11-{group}"));
     if let Some(r) = &cfg.replay {
         let case = Case {
-            replies: r["replies"].as_array().unwrap().iter().map(|x| (x[0].as_bool().unwrap(), x[1].as_u64().unwrap() as usize, x[2].as_bool().unwrap())).collect(),
+            replies: r["replies"].as_array().unwrap().iter().map(|x| (x[0].as_u64().map(|k| k as u8).unwrap_or_else(|| x[0].as_bool().unwrap_or(false) as u8), x[1].as_u64().unwrap() as usize, x[2].as_bool().unwrap())).collect(),
             chunk_of: r["chunk_of"].as_array().unwrap().iter().map(|x| x.as_u64().unwrap() as usize).collect(),
             pendings: r["pendings"].as_u64().unwrap() as usize,
             via_proxy_stream: r["via_proxy_stream"].as_bool().unwrap(),
@@ -266,16 +277,21 @@ pub fn run(cfg: &Cfg) -> Report {
         let n = rng.range(2, 6);
         let via_proxy_stream = rng.chance(1, 3);
         let big = rng.chance(1, 2);
-        let replies: Vec<(bool, usize, bool)> = (0..n)
+        // every third case ends in (or contains) a reply that surfaces as a connection-level failure
+        let failing = i % 3 == 2;
+        let fail_at = if failing { rng.range(1, n - 1) } else { usize::MAX };
+        let replies: Vec<(u8, usize, bool)> = (0..n)
             .map(|k| {
                 let len = if big { *rng.pick(&[8usize, 40, 200, 300, 700, 2000]) } else { rng.range(6, 40) };
                 let len = if sanitized && cfg.layer == "miri" { len.min(300) } else { len };
                 let last = k == n - 1;
-                if via_proxy_stream {
+                if k == fail_at {
+                    (if rng.chance(1, 2) { 2 } else { 3 }, len, false)
+                } else if via_proxy_stream {
                     // one `more` call: continuing replies, then a final reply or error
-                    (last && rng.chance(1, 3), len, !last)
+                    ((last && rng.chance(1, 3)) as u8, len, !last)
                 } else {
-                    (rng.chance(1, 5), len, !last && rng.chance(1, 4))
+                    (rng.chance(1, 5) as u8, len, !last && rng.chance(1, 4))
                 }
             })
             .collect();
